@@ -183,6 +183,13 @@ func cmdRun(args []string) {
 	classes := map[string]int{}
 	distinct := map[string]struct{}{}
 	start := time.Now()
+	// lines the Lean driver needs before the cases (e.g. library sources); they have no observation
+	if pr, ok := e.(interface{ preamble() []string }); ok {
+		for _, l := range pr.preamble() {
+			fmt.Fprintf(rw, "%s\n", l)
+			fmt.Fprintf(ow, "%s\n", "-")
+		}
+	}
 	ex, hasExtra := e.(engineX)
 	leanName := name
 	if ln, ok := e.(interface{ leanName() string }); ok {
